@@ -211,7 +211,9 @@ fn dec_eth2(b: &[u8]) -> Dec<'_> {
             let hs = Ethernet2HeaderSlice::from_slice(b);
             let bad = Ethernet2Header::from_bytes(a) != h
                 || hs.as_ref().map(|x| x.to_header() != h || x.slice().as_ptr() != b.as_ptr() || x.slice().len() != 14).unwrap_or(true);
-            (format!("{}{}", show_eth2(&h), if bad { "!decoders-differ" } else { "" }), r)
+            let w = LinkHeader::Ethernet2(h.clone());
+            let bad2 = wrap_bad(&h.to_bytes(), &[w.header_len(), h.header_len()], &[wvec(|v| w.write(v)), wvec(|v| h.write(v))]);
+            (format!("{}{}{}", show_eth2(&h), if bad { "!decoders-differ" } else { "" }, if bad2 { "!routes-differ(link_header)" } else { "" }), r)
         })
         .map_err(|e| len_err(&e))
 }
@@ -252,7 +254,8 @@ fn dec_vlan(b: &[u8]) -> Dec<'_> {
         .map(|(h, r)| {
             let hs = SingleVlanHeaderSlice::from_slice(b);
             let bad = hs.as_ref().map(|x| x.to_header() != h || x.slice().as_ptr() != b.as_ptr() || x.slice().len() != 4).unwrap_or(true);
-            (format!("{}{}", show_vlan(&h), if bad { "!decoders-differ" } else { "" }), r)
+            let bad2 = LinkExtHeader::Vlan(h.clone()).header_len() != 4 || h.header_len() != 4 || VlanHeader::Single(h.clone()).next_header() != h.ether_type;
+            (format!("{}{}{}", show_vlan(&h), if bad { "!decoders-differ" } else { "" }, if bad2 { "!routes-differ(vlan_wrappers)" } else { "" }), r)
         })
         .map_err(|e| len_err(&e))
 }
@@ -319,7 +322,11 @@ fn sll_slice_err(e: err::linux_sll::HeaderSliceError) -> String {
 }
 fn dec_sll(b: &[u8]) -> Dec<'_> {
     LinuxSllHeader::from_slice(b)
-        .map(|(h, r)| (show_sll(&h), r))
+        .map(|(h, r)| {
+            let w = LinkHeader::LinuxSll(h.clone());
+            let bad = wrap_bad(&h.to_bytes(), &[w.header_len(), h.header_len()], &[wvec(|v| w.write(v)), wvec(|v| h.write(v))]);
+            (format!("{}{}", show_sll(&h), if bad { "!routes-differ(link_header)" } else { "" }), r)
+        })
         .map_err(sll_slice_err)
 }
 
@@ -418,7 +425,10 @@ fn macsec_from(b: &[u8]) -> Result<(MacsecHeader, &[u8]), String> {
     }
 }
 fn dec_macsec(b: &[u8]) -> Dec<'_> {
-    macsec_from(b).map(|(h, r)| (show_macsec(&h), r))
+    macsec_from(b).map(|(h, r)| {
+        let bad = wrap_bad(&h.to_bytes(), &[LinkExtHeader::Macsec(h.clone()).header_len(), h.header_len()], &[wvec(|v| h.write(v))]);
+        (format!("{}{}", show_macsec(&h), if bad { "!routes-differ(link_ext_header)" } else { "" }), r)
+    })
 }
 
 // ---------------------------------------------------------------------------------------------
@@ -499,7 +509,8 @@ fn dec_arp(b: &[u8]) -> Dec<'_> {
             t[n - 1] ^= 1;
             ArpPacket::new(h.hw_addr_type, h.proto_addr_type, h.operation, h.sender_hw_addr(), h.sender_protocol_addr(), h.target_hw_addr(), &t).ok()
         };
-        (format!("{}{}", show_arp(&h), if eq_laws_bad(&h, d) { "!accessor-mismatch" } else { "" }), r)
+        let bad2 = NetHeaders::Arp(h.clone()).header_len() != h.to_bytes().len() || h.packet_len() != h.to_bytes().len();
+        (format!("{}{}{}", show_arp(&h), if eq_laws_bad(&h, d) { "!accessor-mismatch" } else { "" }, if bad2 { "!routes-differ(net_headers)" } else { "" }), r)
     })
 }
 
@@ -564,9 +575,16 @@ fn mk_udp(a: &[&str]) -> Option<UdpHeader> {
         _ => None,
     }
 }
+fn tp_wrap(t: TransportHeader, bytes: &[u8]) -> &'static str {
+    if wrap_bad(bytes, &[t.header_len()], &[wvec(|v| t.write(v))]) {
+        "!routes-differ(transport_header)"
+    } else {
+        ""
+    }
+}
 fn dec_udp(b: &[u8]) -> Dec<'_> {
     UdpHeader::from_slice(b)
-        .map(|(h, r)| (show_udp(&h), r))
+        .map(|(h, r)| (format!("{}{}", show_udp(&h), tp_wrap(TransportHeader::Udp(h.clone()), &h.to_bytes())), r))
         .map_err(|e| len_err(&e))
 }
 
@@ -654,13 +672,20 @@ fn dec_tcp(b: &[u8]) -> Dec<'_> {
                 let _ = d.set_options_raw(&o);
             }
             let o = &h.options;
-            let bad = eq_laws_bad(&h, Some(d))
+            let mut st = h.clone();
+            let stale_bad = st.set_options_raw(&[1u8; 40]).is_err()
+                || st.set_options_raw(h.options.as_slice()).is_err()
+                || st != h
+                || st.to_bytes() != h.to_bytes()
+                || TcpHeader::from_slice(&st.to_bytes()).map(|x| x.0 != st).unwrap_or(true);
+            let bad = stale_bad
+                || eq_laws_bad(&h, Some(d))
                 || eq_laws_bad(o, None)
                 || o.cmp(&o.clone()) != core::cmp::Ordering::Equal
                 || o.partial_cmp(&o.clone()) != Some(core::cmp::Ordering::Equal)
                 || TcpOptions::try_from(o.as_slice()).ok().as_ref() != Some(o)
                 || TcpOptions::try_from_slice(o.as_slice()).ok().as_ref() != Some(o);
-            (format!("{}{}", show_tcp(&h), if bad { "!accessor-mismatch" } else { "" }), r)
+            (format!("{}{}{}", show_tcp(&h), if bad { "!accessor-mismatch" } else { "" }, tp_wrap(TransportHeader::Tcp(h.clone()), &h.to_bytes())), r)
         })
         .map_err(tcp_err)
 }
@@ -777,7 +802,10 @@ fn mk_icmpv4(a: &[&str]) -> Option<Result<Icmpv4Header, String>> {
 }
 fn dec_icmpv4(b: &[u8]) -> Dec<'_> {
     Icmpv4Header::from_slice(b)
-        .map(|(h, r)| (show_icmpv4(&h), r))
+        .map(|(h, r)| {
+            let bad = h.icmp_type.header_len() != h.header_len() || h.header_len() != h.to_bytes().len();
+            (format!("{}{}{}", show_icmpv4(&h), tp_wrap(TransportHeader::Icmpv4(h.clone()), &h.to_bytes()), if bad { "!routes-differ(icmp_type_header_len)" } else { "" }), r)
+        })
         .map_err(|e| len_err(&e))
 }
 
@@ -884,7 +912,10 @@ fn mk_icmpv6(a: &[&str]) -> Option<Result<Icmpv6Header, String>> {
 }
 fn dec_icmpv6(b: &[u8]) -> Dec<'_> {
     Icmpv6Header::from_slice(b)
-        .map(|(h, r)| (show_icmpv6(&h), r))
+        .map(|(h, r)| {
+            let bad = h.icmp_type.header_len() != h.header_len() || h.header_len() != h.to_bytes().len();
+            (format!("{}{}{}", show_icmpv6(&h), tp_wrap(TransportHeader::Icmpv6(h.clone()), &h.to_bytes()), if bad { "!routes-differ(icmp_type_header_len)" } else { "" }), r)
+        })
         .map_err(|e| len_err(&e))
 }
 
